@@ -648,6 +648,36 @@ func polygonCase(c *mon.Case) {
 			c.Violation("Polygon.Area/polygon-plus-complement/"+mon.Severity(e), fmt.Sprintf("Area(polygon) + Area(complement) = %.17g + %.17g differs from 4*pi by %.3g", a, q.Area(), e), det())
 		}
 	}
+	// a loop object that was a hole of this polygon, reused as the only loop of a new polygon, is a shell again
+	var fresh []*s2.Loop
+	for _, rg := range rings {
+		fresh = append(fresh, s2.LoopFromPoints(append([]s2.Point(nil), rg.vs...)))
+	}
+	p2 := s2.PolygonFromLoops(fresh)
+	for k := 0; k < p2.NumLoops(); k++ {
+		lp := p2.Loop(k)
+		if !lp.IsHole() {
+			continue
+		}
+		// its reference area: the ring with the same first vertex
+		var want float64
+		found := false
+		for _, rg := range rings {
+			if rg.vs[0] == lp.Vertex(0) && len(rg.vs) == lp.NumVertices() {
+				want = ref.Fl(new(big.Float).SetPrec(ref.Prec).Sub(twoPi, ref.LoopCurvatureH(gen.Vs(rg.vs), orient)))
+				found = true
+			}
+		}
+		if !found {
+			break
+		}
+		q := s2.PolygonFromLoops([]*s2.Loop{lp})
+		c.Count("polygons.hole_loop_reused_as_shell", 1)
+		if e := math.Abs(q.Area() - want); e > 1e-14*float64(lp.NumVertices()) {
+			c.Violation("Polygon.Area/loop-object-reused-as-single-shell/"+mon.Severity(e), fmt.Sprintf("a polygon built from one loop object that was a hole of another polygon has Area %.17g, the loop's area is %.17g", q.Area(), want), det())
+		}
+		break
+	}
 }
 
 func triangleCase(c *mon.Case) {
